@@ -927,7 +927,17 @@ def check_accepted_is_encodable(repo: Repo, rep: Report, rule: str, tier: str):
         try:
             op = cref.sa_attr("new")(v)
         except PyRaise as pe:
-            rep.ok(rule, CO + ".new", f"[{lab}] refused up front ({pe.name}), before anything is written", "", nontrivial=False)
+            try:
+                v.encode("utf-8")
+                encodable = True
+            except UnicodeEncodeError:
+                encodable = False
+            if encodable:
+                # any ordinary text is a legitimate payload: the CLI has already written the pickles before the target
+                # (and inject_payload has opened the output archive) when the injection call raises
+                rep.bad(rule, CO + ".new", f"refuses-text-payload:{pe.name}", f"ConstantOpcode.new({lab}) raises {pe.name} for ordinary text (no constant class takes it: an exception other than ValueError ends the priority search instead of moving on to the next class): the injection call fails after output has already been started", "fickling/fickle.py", repo.cls(CO).node.lineno)
+            else:
+                rep.ok(rule, CO + ".new", f"[{lab}] not encodable as UTF-8: refused ({pe.name})", "", nontrivial=False)
             continue
         except Unsupported as e:
             raise AnalysisError(f"{rule}: cannot interpret ConstantOpcode.new for {lab}: {e}")
